@@ -1,5 +1,5 @@
 (* C15 -- repeated assignments: last wins, lists accumulate, empty assignment resets. *)
-From QV Require Import Model.Base Model.Split Model.Unit Spec.Effective Proofs.C15.
+From QV Require Import Model.Base Model.Split Model.Unit Spec.Effective Proofs.C15 Model.Lex Model.Parser Model.ProcessD Proofs.C06trees.
 
 (* list keys: the looked-up values are exactly the history after its last empty assignment *)
 Theorem C15_list : forall u sec key, lookup_all_values u sec key = effective (values_raw u sec key).
@@ -33,3 +33,10 @@ Theorem C15_pinned_refuted :
 Proof. exact pinned_last_refuted. Qed.
 
 Check C15_list : forall u sec key, lookup_all_values u sec key = effective (values_raw u sec key).
+
+(* drop-ins, any number: the history of a key in the unit the generator converts (Model/ProcessD.v: the main file merged with its drop-ins) is
+   its history in the main file followed by its histories in the drop-ins, in merge order -- so "distributed arbitrarily over the main file,
+   repeated sections and any number of drop-in files" is one history, to which C15_list / C15_last / C15_kv apply *)
+Theorem C15_merged_history : forall ds u sec key, Forall (fun d => parse_unit d <> None) ds ->
+  values_raw (fst (merge_dropins u ds)) sec key = values_raw u sec key ++ dropin_values ds sec key.
+Proof. exact merged_history. Qed.
